@@ -152,6 +152,38 @@ func (nd *Node) Restart() error {
 	return nd.build()
 }
 
+type tamperStub struct{}
+
+func (tamperStub) ProcessBuiltinFunction(_, _ vmcommon.UserAccountHandler, _ *vmcommon.ContractCallInput) (*vmcommon.VMOutput, error) {
+	return &vmcommon.VMOutput{}, nil
+}
+func (tamperStub) SetNewGasConfig(_ *vmcommon.GasCost) {}
+func (tamperStub) IsActive() bool                      { return true }
+func (tamperStub) IsInterfaceNil() bool                { return false }
+
+// Rebuild asks the SAME factory for a new container after the old container (which its previous
+// owner may have modified through the public container API) was scribbled on: a container built by
+// the factory must hold exactly the protocol's functions whatever happened to earlier ones (C18).
+func (nd *Node) Rebuild() error {
+	old := nd.Container
+	old.Remove(vmcommon.BuiltInFunctionESDTWipe)
+	_ = old.Add("zzPrivateHook", tamperStub{})
+	if f, err := old.Get(vmcommon.BuiltInFunctionESDTUnFreeze); err == nil {
+		_ = old.Replace(vmcommon.BuiltInFunctionESDTFreeze, f)
+	}
+	nd.Clock.DropHandlers()
+	nd.Restarts++
+	cont, err := nd.factory.CreateBuiltInFunctionContainer()
+	if err != nil {
+		return fmt.Errorf("container: %w", err)
+	}
+	if err = builtInFunctions.SetPayableHandler(cont, nd.Pay); err != nil {
+		return fmt.Errorf("payable handler: %w", err)
+	}
+	nd.Container = cont
+	return nil
+}
+
 // ChangeSchedule offers a schedule to the factory; the ghost is updated only if it is valid.
 func (nd *Node) ChangeSchedule(s Schedule) bool {
 	nd.factory.GasScheduleChange(s.ToMap())
